@@ -21,9 +21,15 @@ MACROS = [
     "(define-syntax my-m (syntax-rules () ((my-m a) (* a 100))))",
     "(define-syntax and (syntax-rules () ((and x ...) 0)))",
     "(define-syntax begin (syntax-rules () ((begin x ...) 'no-begin)))",
+    # pattern variables named like the identifiers the bundled templates introduce; uses below that match NO rule after
+    # having bound some of them
+    "(define-syntax sw (syntax-rules () ((sw x temp) (+ x temp))))",
+    "(define-syntax pk (syntax-rules () ((pk atom-key x temp) (list atom-key x temp)) ((pk (x)) x)))",
 ]
 USES = ["(cond (#f 1) (else 2))", "(let ((q 1)) (+ q 1))", "(my-m 5)", "(and 1 2)", "(begin 1 2)", "(or #f 3)", "(case 1 ((1) 'one) (else 'other))",
-        "(when #t 1 2)", "(map (lambda (q) (* q q)) '(1 2 3))", "(append '(1) '(2))"]
+        "(when #t 1 2)", "(map (lambda (q) (* q q)) '(1 2 3))", "(append '(1) '(2))",
+        "(sw 5)", "(sw 1 2)", "(sw 7 8 9)", "(pk 1 2)", "(pk (3))", "(pk 4 5 6)", "(my-m)", "(my-m 1 2)",
+        "(or #f 3)", "(cond (#f 1) (2 => (lambda (v) (* v 10))))", "(case (+ 1 0) ((1) 'one) (else 'other))", "(or #f #f 4)"]
 OTHER = ["(define shared 1)", "(set! shared (+ shared 1))", "shared", "(define (f) 'mine)", "(f)", "(car '())", "(undefined-zz)",
          "(import (scheme base))", "(import (nonexistent lib))", "(define car cdr)", "(car '(1 2))", "(set! undefined-yy 1)",
          "(define v (vector 1 2))", "(vector-set! v 0 'x)", "v", "(1 2", "(define-syntax broken (syntax-rules", ")"]
